@@ -84,6 +84,7 @@ def concatenate(signals, /, axis=0):
     Signal
         Concatenated signal of same type as input signals.
     """
+    signals = list(signals)
     try:
         sig_type = type(signals[0])
     except IndexError:
@@ -117,7 +118,8 @@ def concatenate(signals, /, axis=0):
         for s in signals:
             if s.start_time is not None:
                 if ref_st is None:
-                    ref_st = s.start_time - (n / ref_sr)
+                    # (subtracting zero seconds from a UTC time is not bit-exact)
+                    ref_st = s.start_time - (n / ref_sr) if n else s.start_time
                 elif not Time.isclose(ref_st + (n / ref_sr), s.start_time, atol=atol):
                     raise ValueError("Signals not contiguous in time.")
             n += len(s)
